@@ -451,8 +451,18 @@ func Dump(e *Expr) string {
 				continue
 			}
 
-			for _, cs := range strings.Split(cc, "\n") {
-				sb.WriteString(fmt.Sprintf("\n  %s", cs))
+			// indent every line of the child, except that a line break
+			// inside a string literal belongs to the literal
+			sb.WriteString("\n  ")
+			inStr := false
+			for _, c := range cc {
+				sb.WriteRune(c)
+				if c == '"' {
+					inStr = !inStr
+				}
+				if c == '\n' && !inStr {
+					sb.WriteString("  ")
+				}
 			}
 		}
 		sb.WriteString(")")
